@@ -415,8 +415,8 @@ struct GSeq
 template <typename T> struct G<std::vector<T>> : GSeq<std::vector<T>> { static constexpr bool alloc_free_class = G<T>::alloc_free_class; };
 template <typename T> struct G<std::deque<T>> : GSeq<std::deque<T>> { static constexpr bool alloc_free_class = G<T>::alloc_free_class; };
 template <typename T> struct G<std::list<T>> : GSeq<std::list<T>> { static constexpr bool alloc_free_class = G<T>::alloc_free_class; };
-template <typename T> struct G<std::set<T>> : GSeq<std::set<T>> { static constexpr bool alloc_free_class = G<T>::alloc_free_class; };
-template <typename T> struct G<std::multiset<T>> : GSeq<std::multiset<T>> { static constexpr bool alloc_free_class = G<T>::alloc_free_class; };
+template <typename T, typename C> struct G<std::set<T, C>> : GSeq<std::set<T, C>> { static constexpr bool alloc_free_class = G<T>::alloc_free_class; };
+template <typename T, typename C> struct G<std::multiset<T, C>> : GSeq<std::multiset<T, C>> { static constexpr bool alloc_free_class = G<T>::alloc_free_class; };
 template <typename T> struct G<std::unordered_set<T>> : GSeq<std::unordered_set<T>> { static constexpr bool alloc_free_class = G<T>::alloc_free_class; };
 template <typename T>
 struct G<std::forward_list<T>>
@@ -462,7 +462,7 @@ struct GMap
   static Owner const& arg(Owner const& o) { return o; }
   static void scramble(Owner& o) { o.clear(); }
 };
-template <typename K, typename V> struct G<std::map<K, V>> : GMap<K, V, std::map<K, V>> {};
+template <typename K, typename V, typename C> struct G<std::map<K, V, C>> : GMap<K, V, std::map<K, V, C>> {};
 template <typename K, typename V> struct G<std::multimap<K, V>> : GMap<K, V, std::multimap<K, V>> {};
 template <typename K, typename V> struct G<std::unordered_map<K, V>> : GMap<K, V, std::unordered_map<K, V>> {};
 template <typename T>
@@ -936,6 +936,9 @@ static void register_shapes()
   SHAPE(std::array<int32_t, 4>) SHAPE(std::array<str, 3>) SHAPE(std::array<double, 1>)
   SHAPE(std::set<int32_t>) SHAPE(std::set<str>) SHAPE(std::multiset<int32_t>) SHAPE(std::unordered_set<int32_t>) SHAPE(std::unordered_set<str>)
   SHAPE(vec<int32_t>, str, vec<str>) SHAPE(str, vec<uint8_t>)
+  // ordered containers with a non-default comparator: the text follows the container's own order
+  SHAPE(std::set<int32_t, std::greater<int32_t>>) SHAPE(std::multiset<int64_t, std::greater<int64_t>>) SHAPE(std::map<int32_t, str, std::greater<int32_t>>)
+  SHAPE(vec<std::set<int32_t, std::greater<int32_t>>>)
 #endif
 #if P(2)
   SHAPE(std::map<int32_t, str>) SHAPE(std::map<str, int32_t>) SHAPE(std::map<str, str>) SHAPE(std::multimap<int32_t, double>) SHAPE(std::unordered_map<int32_t, str>)
